@@ -1,4 +1,5 @@
 import ApolloModel.Proofs.Strings4
+import ApolloModel.Proofs.FromCst
 /-
 C06 — String literals decode to their spec-defined values.
 
@@ -45,5 +46,22 @@ theorem block_decode_no_panic (rest : Str) (h : 3 ≤ rest.length) :
 example : decodeStringToken ['"', '"', '"', '\n', ' ', ' ', 'a', '\n', ' ', ' ', ' ', 'b', '\n', ' ', '"', '"', '"'] =
     some ['a', '\n', ' ', 'b'] := by decide
 example : decodeStringToken ['"', 'a', '\\', 'n', '\\', 'u', '0', '0', 'e', '9', '"'] = some ['a', '\n', 'é'] := by decide
+
+/-! ### growth: what the AST stores is the decoder's reading of the token (Model/FromCst.lean) -/
+open Apollo.FromCst in
+/-- a string value stored in the AST by `from_cst.rs` (`String::from(&cst::StringValue)`) is `decodeStringToken`
+    — the decoder model of this property — applied to the text of the STRING token -/
+theorem ast_string_value_is_decoded {R : List Loc} (n : Nat) (p : PE R) (hk : p.kind = "STRING_VALUE")
+    (v : Ast.Value) (ls : Locs R) (h : cValue (n + 1) p = some (v, ls)) :
+    ∃ t s, textOfFirstToken p = some t ∧ decodeStringToken t = some s ∧ v = .str s :=
+  cValue_string_spec n p hk v ls h
+
+open Apollo.FromCst in
+/-- the same for descriptions (`cst::Description` → its STRING_VALUE child → the decoder) -/
+theorem ast_description_is_decoded {R : List Loc} (p : PE R) (s : Ast.Str) (ls : Locs R)
+    (h : descOf p = some (some s, ls)) :
+    ∃ d sv t, child "DESCRIPTION" p = some d ∧ child "STRING_VALUE" d = some sv ∧ textOfFirstToken sv = some t ∧
+      decodeStringToken t = some s :=
+  descOf_spec p s ls h
 
 end Apollo.C06
